@@ -120,7 +120,46 @@ theorem wset_outside {st : St} {op : HeapOp} (hr : respectful st op = true) {a :
           · subst e2; rw [ha] at e; cases e
           · rw [e] at e2; exact hne (by injection e2 with e3; injection e3)
       · simp at hx
+    case psRemove g p hh =>
+      simp only [wset] at hx
+      split at hx
+      · rename_i a' hg
+        simp only [receiver, hg] at hrec
+        have hne : a' ≠ a := fun e => hrec (by rw [e])
+        simp only [respectful, hg, setOwned, Bool.and_eq_true, beq_iff_eq] at hr
+        simp only [Bool.or_eq_true, beq_iff_eq] at hx
+        rcases hx with e | e
+        · subst e
+          rcases hs with e2 | e2
+          · exact hne e2
+          · rw [hr.1] at e2; cases e2
+        · rcases hs with e2 | e2
+          · subst e2; rw [ha] at e; cases e
+          · rw [e] at e2; exact hne (by injection e2 with e3; injection e3)
+      · simp at hx
     case psAdd g p hh =>
+      simp only [wset, Bool.or_eq_true] at hx
+      rcases hx with hx | hx
+      · split at hx
+        · rename_i a' hg
+          simp only [receiver, hg] at hrec
+          have hne : a' ≠ a := fun e => hrec (by rw [e])
+          simp only [respectful, hg, setOwned, Bool.and_eq_true, beq_iff_eq] at hr
+          simp only [Bool.or_eq_true, beq_iff_eq] at hx
+          rcases hx with e | e
+          · subst e
+            rcases hs with e2 | e2
+            · exact hne e2
+            · rw [hr.1.1] at e2; cases e2
+          · rcases hs with e2 | e2
+            · subst e2; rw [ha] at e; cases e
+            · rw [e] at e2; exact hne (by injection e2 with e3; injection e3)
+        · simp at hx
+      · split at hx
+        · simp only [Bool.and_eq_true, beq_iff_eq] at hx; exact hcase _ hx.2 (by simp) (by simp)
+        · simp at hx
+
+    case psAddAllSteps g p hz =>
       simp only [wset, Bool.or_eq_true] at hx
       rcases hx with hx | hx
       · split at hx
